@@ -1,13 +1,20 @@
 #!/bin/bash
-# usage: tools/regress_seeds.sh  — every seeded change must be reported (exit 1) by the quick check of its property
-cd /verif
+# usage: tools/regress_seeds.sh [out]  — every seeded change must be reported (exit 1) by the quick check named in its meta.json
+# (default: the check of its own property).  Uses ${VERIF_REPO:-/repo}: in a `vp run --with-repo` the snapshot is patched, not /repo.
+cd "$(dirname "$0")/.."
+R=${VERIF_REPO:-/repo}
 out=${1:-/tmp/regress_seeds.txt}; : > $out
+(cd lean && lake build > /dev/null 2>&1)
 for d in seeded/*/; do
   n=$(basename $d); pid=${n%%-*}
-  (cd /repo && git status --short | grep -q . && { echo "repo not clean" >> $out; exit 2; })
-  (cd /repo && git apply /verif/$d/patch.diff) || { echo "$n patch-does-not-apply" >> $out; continue; }
-  r=$(VERIF_SEED=${VERIF_SEED:-0} ./check $pid 2>&1 | grep -E "exit [0-9]" | tail -1)
-  (cd /repo && git checkout -- .)
-  echo "$n :: $r" >> $out
+  # the check that catches it (first id mentioned in caught_by; falls back to the property's own)
+  chk=$(python3 -c "import json,re,sys; m=json.load(open('$d/meta.json')); c=' '.join(m.get('caught_by',[])); r=re.search(r'C\d\d',c); print(r.group(0) if r else '$pid')" 2>/dev/null || echo $pid)
+  (cd $R && git status --short | grep -v _version.py | grep -q . && { echo "repo not clean" >> $out; exit 2; })
+  (cd $R && git apply $OLDPWD/$d/patch.diff) || { echo "$n patch-does-not-apply" >> $out; continue; }
+  r=$(VERIF_SEED=${VERIF_SEED:-0} ./check $chk 2>&1 | grep -E "exit [0-9]" | tail -1)
+  (cd $R && git checkout -- .)
+  echo "$n :: [$chk] $r" >> $out
 done
+# leave the generated model in its clean state
+PYTHONPATH=$(pwd):$R/src /venv/bin/python -W ignore -m harness.gen_interp > /dev/null 2>&1
 echo done >> $out
